@@ -3,9 +3,10 @@ CONSTANTS
   Reqs <- Reqs2
   Parts <- P13
   RegAfter <- RegBeforeLast
+  KeyOf <- IdKey
   Dups = {3}
   LookupAtomic = TRUE
   FailIdx = {}
-INVARIANTS NoSpurious MatchOnce NoLoss
+INVARIANTS NoSpurious MatchOnce NoLoss RightType
 CHECK_DEADLOCK FALSE
 VIEW McView
